@@ -4,7 +4,7 @@ import os
 import common
 
 PROPS = "RotoV.Props.C16"
-MODULES = ["RotoV.Lemmas.ListConc", "RotoV.Model.ListConc"]
+MODULES = ["RotoV.Lemmas.ListConc", "RotoV.Model.ListConc", "RotoV.Lemmas.ListTrace", "RotoV.Model.ListTrace"]
 
 
 def harness_args(ctx, seed, tier, model=True):
@@ -87,8 +87,28 @@ def search(ctx):
         tsan(ctx, 6000, "search:c16-tsan")
 
 
+def named_functions(ctx):
+    """One obligation per function of src/value/list.rs above the lock that takes a
+    list's lock or reaches the element buffer (enumerated by the extractor, listed in
+    the header of the generated file): it must be one of the operations the model has
+    steps for. A new helper is a broken obligation *by name*."""
+    path = os.path.join(common.LEAN, "RotoV", "Generated", "C16Facts.lean")
+    try:
+        text = open(path).read()
+    except OSError:
+        return
+    for line in text.splitlines():
+        line = line.strip()
+        for tag, ok in (("MODELLED ", True), ("UNMODELLED ", False)):
+            if line.startswith(tag):
+                name, _, why = line[len(tag):].partition(": ")
+                ctx.obligation("modelled:" + name.replace(" ", "_"), ok,
+                               "" if ok else "not an operation the model has steps for: " + why)
+
+
 def run(ctx):
-    ctx.extract(["c16facts"])
+    if ctx.extract(["c16facts"]):
+        named_functions(ctx)
     proved = ctx.prove(PROPS, extra_modules=MODULES)
     model = True
     if not proved:
@@ -103,7 +123,8 @@ def run(ctx):
         "the schedule points of the verif-hooks instrumentation (before every list mutex acquisition, between pointer "
         "lookup and use) are the only places where the interleaving of list operations matters: between two of them a "
         "thread touches shared list state only under the mutexes it holds (argued from the source, checked by the "
-        "lock-scope extractor for every ErasedList method; not a theorem)",
+        "lock-scope extractor for every function above the lock and exercised by the element-level schedule points of the "
+        "probe element type; in the model: locked_list_untouched_by_other_threads + lock_structure_derived_from_source)",
         "what the hardware / allocator does with a stale pointer is not modelled: the instrumentation reports the stale "
         "use (pointer obtained before a realloc/free event covering its address) instead of performing it",
         "elements are u64 (no element destructor, clone = copy); RawList's Vec semantics (push/extend/swap/contains) is "
@@ -112,10 +133,15 @@ def run(ctx):
     return ctx.finish(
         level="proof",
         rule="every maximal interleaving (at schedule-point granularity, enumerated by stateless depth-first search on the "
-             "real threads) of every case: all pairs of single operations from a 25-operation alphabet over two shared "
-             "lists, then random cases (2 threads x <= 2 ops, every 16th 3 threads x 1 op, quick; 2-3 threads x <= 3 ops and every pair of the 90 programs of <= 2 ops over a 9-operation alphabet, thorough); evaluations = "
+             "real threads) of every case: 164 class representatives first (every operation that walks over elements x "
+             "{relocating push, swap} with element-level schedule points - lists of a probe element type whose Clone / "
+             "PartialEq are schedule points; == over equal lists; concat / + with empty and non-empty operands through "
+             "compiled scripts and directly; every scripted operation x mutator), then all pairs of single operations from "
+             "a 25-operation alphabet over two shared "
+             "lists, then random cases (2 threads x <= 2 ops, every 16th 3 threads x 1 op, every 8th through compiled Roto scripts, quick; 2-3 threads x <= 3 ops and every pair of the 90 programs of <= 2 ops over a 9-operation alphabet, thorough); evaluations = "
              "executed schedules; a class is distinct by (operation kinds per thread, how the schedule ended, whether a "
-             "reallocation happened, whether some thread was blocked)",
+             "reallocation happened, whether some thread was blocked, element flavour: u64 / through scripts / probe elements); "
+             "250 (quick) / 1500 (thorough) random probe-element cases are judged by the property oracle only",
         search=search,
     )
 
@@ -140,7 +166,7 @@ def replay(ctx, data):
             return 1
         print(out[-400:])
         return 0 if rc == 0 else 1
-    case = {k: inp[k] for k in ("lists", "progs", "sched", "stress", "seed") if k in inp}
+    case = {k: inp[k] for k in ("lists", "progs", "sched", "stress", "seed", "elem", "script") if k in inp}
     rep = ctx.harness("c16", ["replay", json.dumps(case)])
     if rep is None:
         return 1
